@@ -43,6 +43,7 @@ type Features struct {
 	ValidateRefs bool // manifest PUT rejects references to content the repository lacks
 	TagPage      int  // page size of tags/list when the client does not ask for one (0 = all)
 	DeleteDisabled405 bool // answer 405 (not 404/400) for unsupported deletes
+	CatalogPage       int  // page size of _catalog when the client does not ask for one (0 = all)
 }
 
 // Full is a registry implementing everything.
@@ -432,8 +433,31 @@ func (n *Net) handle(e *Entry) *Answer {
 			names = append(names, r)
 		}
 		sort.Strings(names)
-		b, _ := json.Marshal(map[string]any{"repositories": names})
+		if last := e.Query.Get("last"); last != "" {
+			i := sort.SearchStrings(names, last)
+			if i < len(names) && names[i] == last {
+				i++
+			}
+			names = names[i:]
+		}
+		page := h.Feat.CatalogPage
+		if ns := e.Query.Get("n"); ns != "" {
+			if v, err := strconv.Atoi(ns); err == nil && v >= 0 && (page == 0 || v < page) {
+				page = v
+			}
+		}
 		a := st(200, "")
+		if page > 0 && len(names) > page {
+			names = names[:page]
+			q := url.Values{}
+			q.Set("last", names[len(names)-1])
+			q.Set("n", strconv.Itoa(page))
+			a.Header.Set("Link", fmt.Sprintf("</v2/_catalog?%s>; rel=\"next\"", q.Encode()))
+		}
+		if names == nil {
+			names = []string{}
+		}
+		b, _ := json.Marshal(map[string]any{"repositories": names})
 		a.Body = b
 		a.Header.Set("Content-Type", "application/json")
 		return a
